@@ -24,7 +24,10 @@ META = dict(
          'are recomputed), zero padding below 16/8 bits, declared section length = extent, declared total = bytes produced, '
          'BUFR/7777 delimiters; honour-declared mode zero-fills longer and refuses shorter declarations; the decoder consumes '
          'exactly the declared extents, its result and serialized bytes do not depend on what follows, an overrun is the library '
-         'error; decode(encode(m) ++ t) reports exactly the encoded bytes. Correspondence: data sections of every bit length '
+         'error; decode(encode(m) ++ t) SUCCEEDS for every t whenever the data reader accepts the payload, consumes and reports '
+         'exactly the encoded bytes and returns the supplied parameter values up to the canonicalisation of the bit I/O '
+         '(`C04_decode_encode`, for well-formed families that also meet the decidable alignment conditions `RT.LayoutsOK`, '
+         're-checked on the bundled layouts on every run; counterexample families without them are part of the file). Correspondence: data sections of every bit length '
          '0..47 x editions 2,3,4 x section 2 absent/present (0..40 local bits) x trailing bytes x recompute/honour mode with '
          'declared {0, exact, +1..+3, -1} in each of sections 1-4 and the total x damaged length fields, byte for byte against '
          'pybufrkit, plus a structural oracle recomputing every length field.',
